@@ -281,6 +281,11 @@ func detectIndexType(page []byte) IndexType {
 		if flags&GINMeta != 0 || flags&GINData != 0 || flags&GINList != 0 {
 			return IndexTypeGIN
 		}
+		// Entry-tree pages carry none of these bits (flags 0 or GIN_LEAF): an 8-byte special
+		// space that ends in none of the page ids above and uses only defined GIN flag bits is GIN
+		if specialSize == 8 && flags&0xFF00 == 0 {
+			return IndexTypeGIN
+		}
 	}
 	
 	return IndexTypeUnknown
